@@ -9,7 +9,7 @@
    issued only for proofs that are alive; `ps` is the multiset of amounts of the live proofs. *)
 From Coq Require Import List ZArith NArith Bool.
 Import ListNotations.
-Require Import RV.Model.C10_ProofLock RV.Proof.C10_ProofLock RV.Proof.C10_NonFungible.
+Require Import RV.Model.C10_ProofLock RV.Proof.C10_ProofLock RV.Proof.C10_NonFungible RV.Proof.C10_NonFungibleUnlock.
 Open Scope Z_scope.
 
 (* liquid + locked (= max of the locked amounts) only changes by what is taken out or put in:
@@ -61,9 +61,12 @@ Proof. exact accepted_amounts_divisible. Qed.
    kept by lock and take).  Proved: locking (create proof / clone) succeeds only for ids the
    container holds, keeps the set of ids held, and puts every proven id in the lock table and out
    of the liquid set; a take / recall / burn of ids succeeds iff the ids are distinct and all
-   liquid; hence no id under a live lock can be withdrawn.  NOT proved for ids (covered by
-   correspondence only): the count bookkeeping of unlock_non_fungibles (all proofs dropped =>
-   lock table empty and every id liquid again; unlock through a live proof never panics). *)
+   liquid; hence no id under a live lock can be withdrawn.
+   Histories (`nhop` list): NLock ids = create proof of ids / clone (lock_non_fungibles), NDrop ids
+   = drop of a live proof of exactly these ids (unlock_non_fungibles through its teardown), NTake
+   ids = withdraw / burn / recall, NPut ids = deposit of ids the container does not hold (ids are
+   unique ledger-wide).  `nhrun (n_new ids0, []) ops = Some (c, ps)`: the real container code
+   performed every step; ps = id lists of the live proofs. *)
 Theorem C10_nf_lock_keeps_ids : forall ids c c', NWf c -> n_lock ids c = Ok c' ->
   NWf c' /\ (forall y, holds c' y <-> holds c y) /\ (forall y, In y ids -> holds c y) /\
   (forall y, In y ids -> In y (nkeys (nlocked c')) /\ ~ In y (nliq c')) /\
@@ -78,6 +81,31 @@ Proof. exact lock_table_ids_not_withdrawable. Qed.
 Theorem C10_nf_take_keeps_wf : forall ids c c' out, NWf c -> n_take_ids ids c = Ok (c', out) ->
   NWf c' /\ out = ids /\ nlocked c' = nlocked c /\ (forall y, In y (nliq c') <-> In y (nliq c) /\ ~ In y ids).
 Proof. exact n_take_wf. Qed.
+
+(* in every reachable state the lock table holds exactly the ids proven by some live proof *)
+Theorem C10_nf_locked_iff_proven : forall ids0 ops c ps y, nhrun (n_new ids0, []) ops = Some (c, ps) ->
+  (In y (nkeys (nlocked c)) <-> exists p, In p ps /\ In y p) /\ NWf c.
+Proof. exact nf_locked_iff_proven. Qed.
+(* dropping a live proof of ids never hits the `expect` of unlock_non_fungibles *)
+Theorem C10_nf_no_panic : forall ids0 ops c ps ids, nhrun (n_new ids0, []) ops = Some (c, ps) -> In ids ps ->
+  exists c', n_unlock ids c = Ok c'.
+Proof. exact nf_no_panic. Qed.
+(* when all proofs are dropped nothing is locked: every id held is liquid (so withdrawable again) *)
+Theorem C10_nf_all_dropped_restores : forall ids0 ops c, nhrun (n_new ids0, []) ops = Some (c, []) ->
+  nlocked c = [] /\ forall y, holds c y <-> In y (nliq c).
+Proof. exact nf_all_dropped_restores. Qed.
+(* creating, cloning and dropping proofs never change the set of ids the container holds *)
+Theorem C10_nf_total_invariant : forall c ps ids, NGood c ps ->
+  (forall c', n_lock ids c = Ok c' -> forall y, holds c' y <-> holds c y) /\
+  (In ids ps -> exists c', n_unlock ids c = Ok c' /\ forall y, holds c' y <-> holds c y).
+Proof. exact nf_lock_unlock_keep_ids. Qed.
+Theorem C10_nf_reachable_good : forall ids0 ops c ps, nhrun (n_new ids0, []) ops = Some (c, ps) -> NGood c ps.
+Proof. intros ids0 ops c ps H. exact (nhrun_good _ _ _ _ _ (ngood_new ids0) H). Qed.
+
+Example C10_nf_nonvacuous :
+  (exists c, nhrun (n_new [1; 2; 3]%N, []) [NLock [1; 2]%N; NLock [2; 3]%N; NTake []%N; NDrop [1; 2]%N; NDrop [2; 3]%N; NTake [2]%N] = Some (c, []) /\ nliq c = [1; 3]%N)
+  /\ nhrun (n_new [1; 2; 3]%N, []) [NLock [1; 2]%N; NLock [2; 3]%N; NDrop [1; 2]%N; NTake [2]%N] = None.
+Proof. split; [eexists; split; vm_compute; reflexivity|vm_compute; reflexivity]. Qed.
 
 (* non-vacuity: a history with two overlapping proofs (7 and 5 units), a withdrawal at the
    boundary, a clone, and all drops *)
@@ -98,3 +126,8 @@ Print Assumptions C10_nf_lock_keeps_ids.
 Print Assumptions C10_nf_withdraw_iff.
 Print Assumptions C10_nf_locked_not_withdrawable.
 Print Assumptions C10_nf_take_keeps_wf.
+Print Assumptions C10_nf_locked_iff_proven.
+Print Assumptions C10_nf_no_panic.
+Print Assumptions C10_nf_all_dropped_restores.
+Print Assumptions C10_nf_total_invariant.
+Print Assumptions C10_nf_reachable_good.
